@@ -16,7 +16,7 @@ and every sequence of sources:
   `same_source_twice_is_usage_error`, `set_after_toggle_by_same_source_is_usage_error`
 * (b) toggles: `set_option_spec`, `toggle_switches_others_off`, `optlist_element_denotes_named_option`, `optlist_reads_back_names`
 * (c) abbreviations: `abbrev_full_name_resolves`, `abbrev_resolves_iff_unique`, `abbrev_ambiguous_iff`, `abbrev_unknown_iff`
-* (d) `--`, arguments in order: `dashdash_ends_options`, `first_nonoption_ends_options`, `options_end_where_documented`, `args_returned_in_order`, `getArg_spec`
+* (d) `--`, arguments in order: `dashdash_ends_options`, `first_nonoption_ends_options`, `options_end_where_documented`, `remaining_args_in_order`, `args_returned_in_order`, `getArg_spec`
 * "plus/minus-prefixed booleans": no such feature exists in this version; `plus_word_is_argument` states what the code does.
 * (e) usage errors, never a crash: `every_history_ends_cleanly`, `cmdline_ends_cleanly`, `spoof_ends_cleanly`, `environment_ends_cleanly`,
   `configfile_ends_cleanly`, `setting_succeeds_iff`, `integer_argument_syntax`, `rejected_setting_changes_nothing`, `unknown_long_option`, `ambiguous_long_option`,
@@ -203,6 +203,13 @@ theorem options_end_where_documented (g g' : G) (argv : List Str) (m : Bool) (h 
 
 theorem args_returned_in_order (g : G) (pre rest : List Str) (hargv : g.argv = pre ++ rest) (hk : g.optind = pre.length) (n : Nat) :
     getArg g ((n : Int) + 1) = rest[n]? ∧ argNumber g = rest.length := getArg_of_split g pre rest hargv hk n
+
+/-- (d) **remaining arguments are returned in order**: after a successful `esl_opt_ProcessCmdline`, `GetArg(1), GetArg(2), …`
+    are exactly the words of `argv` from the position where the options ended (see `options_end_where_documented`),
+    and `ArgNumber` is their count -/
+theorem remaining_args_in_order (g g' : G) (argv : List Str) (m : Bool) (h : processCmdline g argv = .done g' .ok m) (n : Nat) :
+    getArg g' ((n : Int) + 1) = (argv.drop g'.optind)[n]? := by
+  rw [getArg_drop, (processCmdline_stops g g' argv m h).1]
 
 theorem getArg_is_argv_from_optind (g : G) (n : Nat) :
     getArg g ((n : Int) + 1) = if g.optind + n < g.argc then g.argv[g.optind + n]? else none := getArg_spec g n
